@@ -70,3 +70,9 @@ claim("C16", "other", "structural pattern analysis of to_DiGraph (dependency-set
       "every edge joins positions i-1 and i of one wire list (hence forward, acyclic, per-wire program order); node attributes come from the operation; the graph depends only on program.operations (no cache, no mutation).",
       "Not decided: the reachability equivalence ('j reachable from i iff a sharing chain exists') - a statement about the algorithm's output over all operation sequences, no sound static argument in reach beyond the forward-edge invariant.",
       "DESIGN.md 5/C16")
+
+claim("C08", "other", "grammar-derived token facts, unordered-flow pairing check on RegRefTransform, finite-model evaluation of the wrapping guards, effect analysis of the stored transforms, who-may-write rule on the parameter table",
+      "Decides: REGREF evaluates to Symbol(token text); func and regrefs come from one materialisation of free_symbols in the same order (documented freedom stays paired); register number = text after the grammar's literal prefix; "
+      "in both argument slots exactly SymPy values with a non-parameter symbol are replaced by a freshly built RegRefTransform of that value (36 models per slot); only parameter-derived names ever enter the parameter table.",
+      "Not decided: that SymPy's lambdify computes the expression (library).",
+      "DESIGN.md 5/C08")
